@@ -55,11 +55,29 @@ def gen_cases(rng, stats, n, shrink=0.15):
             force["n"] = nn = rng.choice([4, 6, 8, 10])
             force["canary_k"] = rng.choice([2, 3, 4])
             force["scenario"] = "canary_running"
+        exact = (not shrunk) and rng.random() < 0.15
+        if exact:
+            # one name too many on the list, and exactly one of the listed nodes is gone: re-validation leaves precisely
+            # the requested number - nothing may be added
+            r_exact = rng.choice([1, 2, 3])
+            force["n"] = nn = rng.choice([4, 6, 8])
+            force["canary_k"] = r_exact + 1
+            force["scenario"] = "canary_running"
+            force["plain_templates"] = True
         c = worldgen.gen_eds_world(rng, stats, force)
         e = [o for o in c["objects"] if o["kind"] == "ExtendedDaemonSet"][0]
+        if exact and (e.get("status") or {}).get("canary") and e["spec"]["strategy"].get("canary") is not None:
+            listed = [x for x in e["status"]["canary"]["nodes"] if x != "n-gone"]
+            if len(listed) == r_exact + 1:
+                gone = rng.choice(listed)
+                c["objects"] = [o for o in c["objects"] if not (o["kind"] == "Node" and o["metadata"]["name"] == gone)]
+                wprop.bump(stats, "re-validation leaves exactly the requested number", "yes")
         can = e["spec"]["strategy"].get("canary")
         if can is not None:
             can["replicas"] = rng.choice([0, 1, 1, 2, 3, nn, nn + 1, "1%", "25%", "50%", "100%", "150%", "abc"])
+            if exact:
+                can["replicas"] = r_exact
+                can.pop("nodeSelector", None)
             if shrunk:
                 can["replicas"] = rng.choice([1, 1, 2, "10%", "25%"])
                 wprop.bump(stats, "previous list longer than replicas", "yes")
